@@ -383,12 +383,14 @@ impl WriteBuffer {
 
             #[cfg(feature = "verif")]
             let verif_token = crate::verif::token();
+            #[cfg(feature = "verif")]
+            let verif_role = crate::verif::worker_role(worker_id);
             let handle = thread::spawn(move || {
                 #[cfg(feature = "verif")]
-                crate::verif::adopt(verif_token, "worker");
+                crate::verif::adopt(verif_token, verif_role);
                 write_buffer_worker(ctx, flush_rx);
                 #[cfg(feature = "verif")]
-                crate::verif::retire("worker");
+                crate::verif::retire(verif_role);
             });
 
             self.worker_handles.get_mut().push(handle);
